@@ -190,6 +190,16 @@ func batchingBody(c *runner.Ctx) {
 	conn := sql.OpenDB(mconnector{d})
 	defer conn.Close()
 	db := sqlgen.NewDB(conn, newSchema())
+	if c.Choose(4, "limited-handle") == 1 {
+		// a handle scoped to one tenant: a call whose filter does not comply is
+		// refused, batched or not
+		org := int64(1 + c.Choose(2, "limit-org"))
+		if ldb, err := db.WithShardLimit(sqlgen.Filter{"org_id": org}); err == nil {
+			db = ldb
+			c.Describe("handle limited to org_id=%d", org)
+			c.Probe("limited-handle")
+		}
+	}
 	nCalls := 2 + c.Choose(9, "calls")
 	var calls []*sqlCall
 	for i := 0; i < nCalls; i++ {
@@ -200,6 +210,19 @@ func batchingBody(c *runner.Ctx) {
 			f, desc = prev.filter, prev.desc
 		}
 		calls = append(calls, &sqlCall{idx: i, filter: f, desc: desc, single: c.Choose(4, "query-row") == 0})
+	}
+	// faults: a result set may break off while its rows are being read
+	faultsOn := c.Choose(3, "class") == 1
+	c.Class = "fault-free"
+	if faultsOn {
+		c.Class = "row-stream-faults"
+		d.breakRows = func(st *stmtRec, n int) int {
+			if !faultsOn || st.kind != "SELECT" || c.Biased(2, 750, "row-stream-breaks") == 0 {
+				return -1
+			}
+			c.Fault("row-stream-error")
+			return c.Choose(n+1, "row-stream-breaks-at")
+		}
 	}
 	bctx := batch.WithBatching(context.Background())
 	grid := []time.Duration{0, 0, 0, 500 * time.Microsecond, time.Millisecond, 2 * time.Millisecond, 19 * time.Millisecond, 21 * time.Millisecond}
@@ -236,6 +259,7 @@ func batchingBody(c *runner.Ctx) {
 		c.Probe("batched")
 		c.NonTrivial()
 	}
+	faultsOn = false
 	// every call on its own, without batching, against the same table
 	for _, call := range calls {
 		if !call.done {
@@ -250,6 +274,15 @@ func batchingBody(c *runner.Ctx) {
 			}
 		} else {
 			call.ownErr = db.Query(context.Background(), &call.ownRows, call.filter, nil)
+		}
+		if call.err != nil && strings.Contains(call.err.Error(), "SIM-row-stream-broken") {
+			// the statement serving this call broke off: the call failed, which is
+			// the one acceptable outcome besides its own rows
+			c.Probe("call-failed-with-the-injected-stream-error")
+			if len(call.rows) > 0 {
+				c.Violate("rows-and-error", "call %d with filter %s returned both an error and %d rows", call.idx, call.desc, len(call.rows))
+			}
+			continue
 		}
 		if errKind(call.err) != errKind(call.ownErr) {
 			c.Violate("batched-outcome-differs/"+strings.SplitN(errKind(call.ownErr), ":", 2)[0]+"-vs-"+strings.SplitN(errKind(call.err), ":", 2)[0],
